@@ -45,6 +45,7 @@ ASSUMPTIONS = [
 def check(ctx):
     ctx.run(sched_worker.check_shut)
     ctx.run(sched_worker.check_wrk1)
+    ctx.run(sched_worker.check_wrk_final)
     ctx.run(sched_worker.check_wait_sent)
     ctx.run(sched_rel.check_lock)
     ctx.run(sched_worker.check_backend_owned)
